@@ -2561,6 +2561,10 @@ def tbl_order : (List (List (List Nat))) :=
 def const_header : List Nat :=
   ([67, 86, 83, 83, 58, 52, 46, 48] : List Nat)
 
+/-- import paths of the package's source files (alias=path when renamed) -/
+def pkg_imports : List String :=
+  ["errors", "fmt", "math", "strings", "unsafe"]
+
 /-- fields of the object type (name:type), in declaration order -/
 def obj_fields : List String :=
   ["u0:uint8", "u1:uint8", "u2:uint8", "u3:uint8", "u4:uint8", "u5:uint8", "u6:uint8", "u7:uint8", "u8:uint8"]
